@@ -7,8 +7,9 @@ import Driver.Common
 import Cascette.Model.Path
 import Cascette.Model.CacheKeys
 import Cascette.Model.DiskFs
+import Cascette.Model.KeysExt
 open Cascette Drv
-open Cascette.Model.Path Cascette.Model.CacheKeys Cascette.Model.DiskFs
+open Cascette.Model.Path Cascette.Model.CacheKeys Cascette.Model.DiskFs Cascette.Model.KeysExt
 
 def decStr (t : String) : Option String :=
   match parseHexNat t with
@@ -133,6 +134,88 @@ def parseTyped : String → List String → Option (Key × List String)
     | _, _, _ => none
   | _, _ => none
 
+/-- one public constructor of key.rs by name (Model/KeysExt.Ctor). -/
+def parseCtor : String → List String → Option Ctor
+  | "RibbitKey::new", [e, r] =>
+    match decStr e, decStr r with
+    | some e, some r => some (.ribbitNew e.toList r.toList)
+    | _, _ => none
+  | "RibbitKey::with_product", [e, r, p] =>
+    match decStr e, decStr r, decStr p with
+    | some e, some r, some p => some (.ribbitWithProduct e.toList r.toList p.toList)
+    | _, _, _ => none
+  | "ConfigKey::new", [t, h] =>
+    match decStr t, decStr h with
+    | some t, some h => some (.configNew t.toList h.toList)
+    | _, _ => none
+  | "BlteKey::new", [e] => (hash32 e).map .blteNew
+  | "BlteKey::with_block", [e, i] =>
+    match hash32 e, natLe i (2 ^ 32 - 1) with
+    | some e, some i => some (.blteWithBlock e i)
+    | _, _ => none
+  | "ContentCacheKey::new", [c] => (hash32 c).map .contentNew
+  | "ArchiveIndexKey::new", [n, h] =>
+    match decStr n, decStr h with
+    | some n, some h => some (.archiveIndexNew n.toList h.toList)
+    | _, _ => none
+  | "ManifestKey::new", [t, c] =>
+    match decStr t, hash32 c with
+    | some t, some c => some (.manifestNew t.toList c)
+    | _, _ => none
+  | "ManifestKey::with_version", [t, c, v] =>
+    match decStr t, hash32 c, decStr v with
+    | some t, some c, some v => some (.manifestWithVersion t.toList c v.toList)
+    | _, _, _ => none
+  | "RootFileKey::new_raw", [c] => (hash32 c).map .rootNewRaw
+  | "RootFileKey::new_parsed", [c] => (hash32 c).map .rootNewParsed
+  | "RootFileKey::with_version", [c, p, v] =>
+    match hash32 c, b01 p, natLe v 255 with
+    | some c, some p, some v => some (.rootWithVersion c p v)
+    | _, _, _ => none
+  | "EncodingFileKey::new_raw", [e] => (hash32 e).map .encodingNewRaw
+  | "EncodingFileKey::new_parsed", [e] => (hash32 e).map .encodingNewParsed
+  | "EncodingFileKey::with_page", [e, pg, p] =>
+    match hash32 e, natLe pg (2 ^ 32 - 1), b01 p with
+    | some e, some pg, some p => some (.encodingWithPage e pg p)
+    | _, _, _ => none
+  | "ArchiveRangeKey::new", [id, st, len] =>
+    match decStr id, natLe st (2 ^ 64 - 1), natLe len (2 ^ 32 - 1) with
+    | some id, some st, some len => some (.archiveRangeNew id.toList st len)
+    | _, _, _ => none
+  | "BlteBlockKey::new_raw", [c, i] =>
+    match hash32 c, natLe i (2 ^ 32 - 1) with
+    | some c, some i => some (.blteBlockNewRaw c i)
+    | _, _ => none
+  | "BlteBlockKey::new_decompressed", [c, i] =>
+    match hash32 c, natLe i (2 ^ 32 - 1) with
+    | some c, some i => some (.blteBlockNewDecompressed c i)
+    | _, _ => none
+  | _, _ => none
+
+/-- `stale`: constructor call whose text is read first, and the field values assigned afterwards. -/
+def parseStale : String → List String → Option (Ctor × Key)
+  | "ribbit", [e1, r1, e2, r2] =>
+    match decStr e1, decStr r1, decStr e2, decStr r2 with
+    | some e1, some r1, some e2, some r2 =>
+      some (.ribbitNew e1.toList r1.toList, .ribbit e2.toList r2.toList none)
+    | _, _, _, _ => none
+  | "config", [t1, h1, t2, h2] =>
+    match decStr t1, decStr h1, decStr t2, decStr h2 with
+    | some t1, some h1, some t2, some h2 =>
+      some (.configNew t1.toList h1.toList, .config t2.toList h2.toList)
+    | _, _, _, _ => none
+  | "blte", [e1, e2, i2] =>
+    match hash32 e1, hash32 e2, optNat i2 (2 ^ 32 - 1) with
+    | some e1, some e2, some i2 => some (.blteNew e1, .blte e2 i2)
+    | _, _, _ => none
+  | "archive", [id1, s1, l1, id2, s2, l2] =>
+    match decStr id1, natLe s1 (2 ^ 64 - 1), natLe l1 (2 ^ 32 - 1), decStr id2, natLe s2 (2 ^ 64 - 1),
+      natLe l2 (2 ^ 32 - 1) with
+    | some id1, some s1, some l1, some id2, some s2, some l2 =>
+      some (.archiveRangeNew id1.toList s1 l1, .archiveRange id2.toList s2 l2)
+    | _, _, _, _, _, _ => none
+  | _, _ => none
+
 def sortStrings (l : List String) : List String := l.mergeSort (fun a b => a < b || a == b)
 
 def outcomeStr (o : Outcome Str) (onOk : String → String) : String :=
@@ -237,7 +320,7 @@ def handle : List String → String
           if unsafeArgs [] [path] then "unsafe-skip"
           else if key.length < 2 then "err:invalid-key"
           else if !localHost then "err:other left=-"
-          else "ok range=" ++ encS ("bytes=" ++ toString off ++ "-" ++ toString (rangeEnd off len))
+          else "ok range=" ++ encS (String.ofList (rangeHeader off len))
         | _, _, _, _ => "bad-op"
       | "index", [ak, cuf] =>
         match decStr ak with
@@ -266,6 +349,66 @@ def handle : List String → String
         else "bad-op"
       | _, _ => "bad-op"
     | _, _ => "bad-op"
+  | "ctor" :: name :: args =>
+    match parseCtor name args with
+    | some c => "key=" ++ encS (String.ofList (cacheKey c.key)) ++ " same=1"
+    | none => "bad-op"
+  | "stale" :: kind :: args =>
+    match parseStale kind args with
+    | some (c, k2) =>
+      let (before, m) := (Memo.new c).asCacheKey
+      let after := (m.setFields k2).asCacheKey.1
+      "before=" ++ encS (String.ofList before) ++ " after=" ++ encS (String.ofList after) ++
+        " fresh=" ++ encS (String.ofList (cacheKey k2)) ++ " eq=1"
+    | none => "bad-op"
+  | ["pkey", p, e] =>
+    match decStr p, decStr e with
+    | some p, some e => "key=" ++ encS (String.ofList (protoCacheKey p.toList e.toList))
+    | _, _ => "bad-op"
+  | ["rdel", layout, k] =>
+    match layoutLevels layout, decStr k with
+    | some lv, some key =>
+      if unsafeArgs [key] [] then "unsafe-skip" else
+      let sub := subFor lv key
+      let fs : Fs := { (mkdirAll fs0 (rootP ++ sub)) with
+        files := [[cS, ['d', '1'], ['s','e','c','r','e','t']], rootP ++ [['i','n','s','i','d','e']]] }
+      match removeCold fs rootP sub key.toList with
+      | some loc => "removed gone=" ++ encP loc
+      | none => "nothing gone=-"
+    | _, _ => "bad-op"
+  | ["arange", host, path, pp, name, off, len, cuf] =>
+    match decStr host, decStr path, decOpt pp, decStr name, natLe off (2 ^ 64 - 1), natLe len (2 ^ 64 - 1) with
+    | some host, some path, some pp, some name, some _, some _ =>
+      match archiveContentUrl host.toList path.toList (pp.map (·.toList)) name.toList with
+      | .invalidKey => "err:invalid-name"
+      | .panic => "panic"
+      | .ok u => "err:network url=" ++ (if cuf == "cu=1" then encS (String.ofList u) else "-")
+    | _, _, _, _, _, _ => "bad-op"
+  | ["fmt", "seg", i] =>
+    match natLe i 65535 with
+    | some i => encP (segmentDataPath rootP i)
+    | none => "bad-op"
+  | ["fmt", "idxtmp", k, kind] =>
+    match parseHexNat k with
+    | some b =>
+      if b.length ≠ 16 then "bad-op" else
+      let fin := indexFileName (bucketIndex b) 1
+      let stem := fin.take 10
+      let blocked : Option Str :=
+        match kind with
+        | "stem.tmp" => some (stem ++ tmpExt)
+        | "name.tmp" => some (fin ++ tmpExt)
+        | "tmp" => some ['t', 'm', 'p']
+        | "name" => some fin
+        | "stem" => some stem
+        | "other.tmp" => some (stem.dropLast ++ ['2'] ++ tmpExt)
+        | _ => none
+      match blocked with
+      | none => "bad-op"
+      | some bl =>
+        let tmpName := (indexTmpPath rootP (bucketIndex b) 1).getLast?.getD []
+        (if bl = tmpName || bl = fin then "err" else "ok") ++ " blocked=" ++ encS (String.ofList bl)
+    | none => "bad-op"
   | ["inst", n, dataDir, indicesDir, stdCsv] =>
     match decStr n with
     | some name =>
